@@ -52,6 +52,10 @@ CHECKS = {
    text="With M K = K M = I and cor(0)=1: for all five variants, without nugget or in exact mode with nugget, and through a LogNormal normalizer, the estimate at a conditioning location equals the datum and the variance is 0 (staged: rhs = first column of K; M k = e_0; k^T M k = sill); the returned variance is >= 0 for any matrix the inversion returns; for simple kriging with 1 and 2 conditioning points variance <= sill (explicit 2x2 inverse, |cor|<=1); two coincident conditioning points solved with a matrix satisfying the four Penrose equations act as a single point carrying their mean value (estimate and variance).",
    note="variance <= sill for more than 2 points needs positive definiteness of K (undecided clause of C02) and is outside; numerical exactness of pinv outside; cor(0)=1 and |cor|<=1 are assumptions here, decided per shipped model under C03/C02.",
    technique="symbolic execution with symbolic (pseudo-)inverse constrained by inverse / Penrose axioms, staged lemmas, SMT", ref="DESIGN.md §4 C06"),
+ "C20": dict(engine="E1-symnp", level="model_checking",
+   text="Every listed public entry point is executed symbolically with caller-held numpy object arrays in the aliasing-friendliest layout (asarray(x, dtype=double) returns x itself, as numpy does for contiguous float64) and symbolic option values (mean, trend, geo_scale, normaliser parameter, measurement errors); after the call sequence every element of every caller array and of every earlier stored / returned field must be the identical object or provably the same value (a satisfying assignment is an option value for which some in-place arithmetic on a view changed it). Entry points: vario_estimate (7 option variants), vario_estimate_axis (plain, NaN, masked array with NaN: also the mask), standard_bins, remove_trend_norm_mean / apply_mean_norm_trend (check_shape x stacked), Field.__call__(field=), SRF / CondSRF calls with two store names, Field.transform (6 method/process/keep_mean combinations, two new names), Krige (4 variants incl. per-point errors, external drift, chunking, set_condition refresh), Normalizer methods (5 classes), fit_variogram (weights, lat-lon), all array_* transforms.",
+   note="object arrays differ from float64 arrays only in that every float conversion is treated as 'no copy' (strictly more aliasing than numpy); non-contiguous / non-float64 inputs (copied by numpy) are outside; entry points not listed are outside. Five defects found and fixed (see known_findings.jsonl); their witnesses are replayed as regressions on every run.",
+   technique="symbolic execution with identity/value tracking of caller array elements + SMT", ref="DESIGN.md §4 C20"),
 }
 
 PENDING_REASON = "check not built yet in this session (work in progress; see DESIGN.md §7 build order)"
